@@ -1257,8 +1257,10 @@ func (is *indexSearch) getTSIDsByTagFilterWithRegex(tf *tagFilter) (*uint64set.S
 	// eg, select * from mst where tagkey1 !~ /.*/
 	// eg, show series from mst where tagkey1 !~ /.*/
 	// eg, show tag values with key="tagkey1" where tagkey2 !~ /.*/
+	// The result is the empty set, not nil: searchTSIDsInternal treats a nil operand of AND/OR as
+	// "no constraint", which made `a = 'x' AND b !~ /.*/` select the series with a = 'x'.
 	if tf.isAllMatch {
-		return nil, 0, nil
+		return &uint64set.Set{}, 0, nil
 	}
 
 	tsids, err := is.getTSIDsByMeasurementName(tf.name)
